@@ -18,7 +18,6 @@ package gomatrixserverlib
 import (
 	"fmt"
 	"strings"
-	"unicode/utf8"
 
 	"github.com/matrix-org/gomatrixserverlib/spec"
 )
@@ -64,6 +63,8 @@ const (
 	maxEventLength = 65536
 )
 
+// checkID checks the shape of an ID (sigil and domain separator). The length limits are
+// applied by CheckFields.
 func checkID(id, kind string, sigil byte) (err error) {
 	if _, err = domainFromID(id); err != nil {
 		return
@@ -73,21 +74,6 @@ func checkID(id, kind string, sigil byte) (err error) {
 			"gomatrixserverlib: invalid %s ID, wanted first byte to be '%c' got '%c'",
 			kind, sigil, id[0],
 		)
-		return
-	}
-	if l := utf8.RuneCountInString(id); l > maxIDLength {
-		err = EventValidationError{
-			Code:    EventValidationTooLarge,
-			Message: fmt.Sprintf("gomatrixserverlib: %s ID is too long, length %d > maximum %d", kind, l, maxIDLength),
-		}
-		return
-	}
-	if l := len(id); l > maxIDLength {
-		err = EventValidationError{
-			Code:        EventValidationTooLarge,
-			Message:     fmt.Sprintf("gomatrixserverlib: %s ID is too long, length %d bytes > maximum %d bytes", kind, l, maxIDLength),
-			Persistable: true,
-		}
 		return
 	}
 	return
